@@ -975,6 +975,10 @@ func (t *tree) parseListLiteral(first item, expr ast.Node) ast.Node {
 		if next.typ != itemComma {
 			t.unexpected(next, "parsing value list")
 		}
+		if t.peek().typ == itemRightBracket { // a trailing comma is allowed
+			t.next()
+			return &ast.ListLiteralNode{first.pos, items}
+		}
 	}
 }
 
@@ -997,6 +1001,10 @@ func (t *tree) parseMapLiteral(first item, expr ast.Node) ast.Node {
 		}
 		if next.typ != itemComma {
 			t.unexpected(next, "map literal")
+		}
+		if t.peek().typ == itemRightBracket { // a trailing comma is allowed
+			t.next()
+			return &ast.MapLiteralNode{first.pos, items}
 		}
 		tok := t.expect(itemString, "map literal")
 		var err error
